@@ -21,6 +21,9 @@ CHECKS = {
  "C16": ("model-based stateful PBT (proptest): gate matrix over entry points x party roles, cap boundary amounts, upgrade/migrate flag histories",
          "Generated histories interleaving allow/disallow, block/unblock, pause/unpause with every token entry point (transfer, transfer_from, approve, burn, burn_from, mint) under explicit authorization on two harness list tokens and the allowlist/blocklist/pausable/capped/pausable-counter examples: a call that succeeds never has a closed documented gate, a refused call changes nothing, list changes are immediate and idempotent, pause/unpause strictly alternate and need the owner, with all gates open and preconditions met the call works; cap: no successful mint lifts the supply above generated caps (boundary amounts cap-supply+-1, overflow); migration: on the derive-generated upgrade/migrate of the current tree (native code re-installed after upgrade) migrate completes exactly once per upgrade, never without one, only for the owner.",
          "DESIGN.md §4 C16"),
+ "C17": ("PBT (proptest) with an independent sha2/sha3 tree builder, single-corruption metamorphic probes, exhaustive small trees, model-based claim histories",
+         "Independent Merkle tree builder (sorted-pair with promoted odd nodes and OZ-JS heap layout; positional padded with distinct fillers) for SHA-256 and Keccak-256: every leaf's honest proof must verify, every single-element corruption of leaf/proof/index/root must be rejected; exhaustive drop/swap/index/high-bit enumeration for trees up to 17 (thorough 40) leaves; generated claim histories over two trees on harness distributors (both verification forms) and the airdrop and merkle-voting examples: claimed flips only with a valid proof against the current root, stays set forever, failed claims flip nothing, airdrop pays exactly once.",
+         "DESIGN.md §4 C17"),
 }
 
 PENDING_REASON = "check not yet implemented in this commit (work in progress; design in DESIGN.md §4) — will be claimed once its harness lands"
